@@ -955,8 +955,12 @@ class IteratorProxy(BaseProxy):
         return self._callmethod('close', args)
 
 
-@add_proxy_methods('__getattribute__')
 class NamespaceProxy(BaseProxy):
+    # Do not generate a `__getattribute__` method (via `add_proxy_methods`) on this class:
+    # it would intercept every attribute access on the proxy object itself, including
+    # the `self._callmethod` inside the generated method, and recurse forever
+    # (creating a `Namespace` failed with `RecursionError`).
+    # `__getattr__` below forwards the hosted attributes.
     def __getattr__(self, key):
         if key[0] == '_':
             return object.__getattribute__(self, key)
